@@ -13,7 +13,8 @@
    uint32 key/value lengths). *)
 From Verif Require Import Lib.Base Mkvs.Trie Mkvs.HashProofs Gen.ProofConsts
   MkvsProof.Model MkvsProof.Sound MkvsProof.Complete MkvsProof.Examples MkvsProof.Final
-  MkvsProof.Remote MkvsProof.Iter MkvsProof.IterProofs.
+  MkvsProof.Remote MkvsProof.Iter MkvsProof.IterProofs MkvsProof.IterSound MkvsProof.IterFinal
+  Mkvs.Overlay Mkvs.Iter.
 
 (* G: the constants read from syncer/proof.go are the ones the model was
    written for (the depth limit itself is USED by the model, so a changed value
@@ -145,35 +146,51 @@ Theorem included_set_proof_verifies : forall (H : bytes -> bytes), (forall x, le
   ver <= 1 -> (height t <= 129)%nat ->
   exists p, verify H ver (root_hash H t) (root_hash H t) (gbuild H ver inc [] t) = ROk p /\
             (prunes H p t \/ collision H) /\
-            (p = gprune H ver inc [] t \/ root_hash H t = H []).
+            (p = gprune H ver inc [] t \/ (p = PNil /\ root_hash H t = H [])).
 Proof. exact gbuild_verifies. Qed.
 Print Assumptions included_set_proof_verifies.
 
-(* PARTIAL: the proofs SyncIterate / SyncGetPrefixes build (model builders =
-   port of treeIterator.doNext/Next recording every dereferenced pointer,
-   compared entry-for-entry with the real proofs by the harness) are accepted
-   for the tree's root and prune the tree, for every tree of at most 129 entry
-   levels, every key / prefix list, prefetch / limit, both versions.  Missing
-   for the full statement: that a reader iterating over the resulting partial
-   tree meets no hash inside the covered range and obtains the first
-   prefetch+1 entries >= key of [contents t] (needs doNext_refines_seek); the
-   harness checks exactly that on the implementation for every honest iterate
-   proof, and ex_iterate_covers / ex_prefixes_covers on an example. *)
-Theorem iterate_proof_complete_partial : forall (H : bytes -> bytes), (forall x, length (H x) = HASH_SIZE) ->
-  forall ver t key prefetch,
-  ver <= 1 -> (height t <= 129)%nat ->
-  exists p, verify H ver (root_hash H t) (root_hash H t) (build_iter_proof H ver t key prefetch) = ROk p /\
-            (prunes H p t \/ collision H).
-Proof. exact iterate_proof_verifies_l. Qed.
-Print Assumptions iterate_proof_complete_partial.
+(* The builders are ports of treeIterator.doNext / Next (the machine of
+   Mkvs/Iter.v, which Mkvs/IterLift.v proves equal to al_seek on the contents)
+   re-stated over partial trees ([pdo], [pit_next]: a hash-only pointer stops
+   the walk; every dereferenced pointer is recorded) and compared
+   entry-for-entry with the real proofs by the harness.
 
-Theorem prefix_proof_complete_partial : forall (H : bytes -> bytes), (forall x, length (H x) = HASH_SIZE) ->
+   iterate_proof_complete: for every well-formed tree of at most 129 entry
+   levels, every key, prefetch n and both versions, the proof SyncIterate builds
+   is accepted for the tree's root, and a reader walking the verified partial
+   tree with the ported iterator (Seek + n Next) meets no hash and obtains
+   exactly the first n+1 entries >= key of the contents. *)
+Theorem iterate_proof_complete : forall (H : bytes -> bytes), (forall x, length (H x) = HASH_SIZE) ->
+  forall ver t key n,
+  ver <= 1 -> (height t <= 129)%nat -> wf t -> valid_bytes key ->
+  exists p, verify H ver (root_hash H t) (root_hash H t) (build_iter_proof H ver t key n) = ROk p /\
+            (piter p key n = Some (firstn (S n) (al_seek key (contents t))) \/ collision H).
+Proof. exact iterate_proof_complete_l. Qed.
+Print Assumptions iterate_proof_complete.
+
+(* On ANY pruning of the tree the partial iterator either stops at a hash
+   (None) or yields exactly the first n+1 entries >= key. *)
+Theorem piter_sound : forall (H : bytes -> bytes) p t key n,
+  prunes H p t -> wf t -> valid_bytes key ->
+  piter p key n = None \/ piter p key n = Some (firstn (S n) (al_seek key (contents t))).
+Proof. exact piter_sound_l. Qed.
+Print Assumptions piter_sound.
+
+(* prefix_proof_complete: the proof SyncGetPrefixes builds is accepted, and the
+   prefix loop of prefetch.go:93-113 run over the verified partial tree meets no
+   hash and obtains exactly what the same loop obtains on the full replica
+   (each prefix's stream there being al_seek of the contents by piter_sound /
+   doNext_refines_seek; the result is stated relative to that loop, not expanded
+   into a closed-form list). *)
+Theorem prefix_proof_complete : forall (H : bytes -> bytes), (forall x, length (H x) = HASH_SIZE) ->
   forall ver t prefixes limit,
   ver <= 1 -> (height t <= 129)%nat ->
   exists p, verify H ver (root_hash H t) (root_hash H t) (build_prefixes_proof H ver t prefixes limit) = ROk p /\
-            (prunes H p t \/ collision H).
-Proof. exact prefixes_proof_verifies_l. Qed.
-Print Assumptions prefix_proof_complete_partial.
+            ((pprefixes p prefixes limit = pprefixes (full t) prefixes limit /\
+              pprefixes (full t) prefixes limit <> None) \/ collision H).
+Proof. exact prefix_proof_complete_l. Qed.
+Print Assumptions prefix_proof_complete.
 
 (* ---------------- the remote-backed reader ---------------- *)
 (* A reader that starts from the trusted root only and applies ANY sequence of
@@ -201,14 +218,26 @@ Theorem remote_get_safe : forall (H : bytes -> bytes), (forall x, length (H x) =
 Proof. exact rget_safe_l. Qed.
 Print Assumptions remote_get_safe.
 
-(* PARTIAL (iteration): every pair visible in the reader's cache is a real pair;
-   that consecutive yields are consecutive in [contents t] is not proved. *)
-Theorem remote_tree_iteration_safe_partial : forall (H : bytes -> bytes), (forall x, length (H x) = HASH_SIZE) ->
+(* Iteration, in order: over the reader's cache after ANY sequence of responses
+   and evictions (unbounded cache) Seek + n Next yields exactly the full
+   replica's first n+1 entries >= key, or stops at a hash (= the Go tree
+   fetches again or returns an error), or a collision of H is exhibited. *)
+Theorem remote_tree_iteration_safe : forall (H : bytes -> bytes), (forall x, length (H x) = HASH_SIZE) ->
+  forall t steps key n,
+  wf t -> bounded t -> valid_bytes key -> Forall (step_ok) steps ->
+  piter (run_steps H (root_hash H t) steps) key n = None \/
+  piter (run_steps H (root_hash H t) steps) key n = Some (firstn (S n) (al_seek key (contents t))) \/
+  collision H.
+Proof. exact remote_tree_iteration_safe_l. Qed.
+Print Assumptions remote_tree_iteration_safe.
+
+(* every pair visible in the reader's cache is a real pair *)
+Theorem remote_tree_leaves_safe : forall (H : bytes -> bytes), (forall x, length (H x) = HASH_SIZE) ->
   forall t steps,
   bounded t -> Forall step_ok steps ->
   incl (pleaves (run_steps H (root_hash H t) steps)) (contents t) \/ collision H.
 Proof. exact remote_tree_leaves_safe_l. Qed.
-Print Assumptions remote_tree_iteration_safe_partial.
+Print Assumptions remote_tree_leaves_safe.
 
 (* The excluded case is real: with the partial removal cache.tryRemoveNode
    performs when it meets the locked pointer (bounded cache; finding
